@@ -54,6 +54,7 @@ type respGen struct {
 	doc     *ast.QueryDocument
 	binding func(scalar string) string // Go type bound to a custom scalar
 	pNull   float64
+	nodes   int // values produced so far: large responses are thinned out (lists of <= 1)
 }
 
 func (g *respGen) skipped(ds ast.DirectiveList) bool {
@@ -151,9 +152,10 @@ func (g *respGen) value(t *ast.Type, sub ast.SelectionSet, depth int) interface{
 	if !t.NonNull && g.r.Chance(g.pNull) {
 		return nil
 	}
+	g.nodes++
 	if t.Elem != nil {
 		n := g.r.Intn(4)
-		if depth > 5 {
+		if depth > 5 || g.nodes > 400 {
 			n = g.r.Intn(2)
 		}
 		out := make([]interface{}, 0, n)
